@@ -79,6 +79,9 @@ pub struct Case17 {
     /// request pending, as with a request from another thread), not right before it
     #[serde(default)]
     pub late: bool,
+    /// the request is made by another thread after this many microseconds (0 = at the script step `after_steps`)
+    #[serde(default)]
+    pub async_us: u64,
     /// size parameter of the shape (length of the list a callback loop walks, depth of the
     /// recursion, work per request)
     pub k: u64,
@@ -127,13 +130,15 @@ const BOUND: i64 = 50_000;
 
 pub fn check(ctx: &Ctx, ws: &mut Workers, c: &Case17, counting: bool) -> PropResult {
     let (defs, call) = program(c);
+    // a request made by another thread: the hook's delay point between the requester's two stores widens that window
+    let defs = if c.async_us > 0 { format!("(#%verif-delays 256 1 {})\n{}", [0u64, 300, 2000][(c.k % 3) as usize], defs) } else { defs };
     for cfg in [Config::jit_off(), Config::default_cfg()] {
         let jit_on = cfg.0.is_empty();
         let shown = format!("config: {}\nshape: {:?}  interrupt requested {} {} script steps\n{}\n{}", cfg.label(), c.shape, if c.late { "right after the check of step" } else { "after" }, c.after_steps, defs, call);
         let mut attempt = 0;
         loop {
             attempt += 1;
-            let steps = vec![Step::Eval { src: defs.clone() }, Step::EvalInterrupt { src: call.clone(), after_steps: if c.late { c.after_steps | (1 << 62) } else { c.after_steps } }, Step::Eval { src: PROBE.to_string() }];
+            let steps = vec![Step::Eval { src: defs.clone() }, Step::EvalInterrupt { src: call.clone(), after_steps: if c.async_us > 0 { c.async_us | (1 << 61) } else if c.late { c.after_steps | (1 << 62) } else { c.after_steps } }, Step::Eval { src: PROBE.to_string() }];
             let mut case = Case::new(steps);
             case.timeout_ms = 12_000 * attempt;
             case.mem_mb = 4096;
@@ -199,6 +204,9 @@ pub fn check(ctx: &Ctx, ws: &mut Workers, c: &Case17, counting: bool) -> PropRes
                 if c.late {
                     ctx.stats.class("request-raised-right-after-a-check");
                 }
+                if c.async_us > 0 {
+                    ctx.stats.class("request-made-by-another-thread-after-a-delay");
+                }
                 ctx.stats.class_n(&format!("{}:steps-between-request-and-stop", tag), (end - fired).max(0) as u64);
                 if fired == 0 {
                     ctx.stats.class(&format!("{}:delivered-by-timer", tag));
@@ -257,7 +265,11 @@ pub fn run(ctx: &Ctx, replay: Option<&str>) -> i32 {
         "intr",
         || {
             (prop::sample::select(SHAPES.to_vec()), prop_oneof![1 => Just(1u64), 1 => Just(2u64), 1 => Just(1000u64), 3 => 1000u64..1040, 5 => 1u64..3_000_000], any::<u16>(), any::<bool>())
-                .prop_map(|(shape, after_steps, k, late)| Case17 { shape, after_steps, k: k as u64, late })
+                .prop_map(|(shape, after_steps, k, late)| {
+                    // one case in five: the request comes from another thread after 0.2 - 66 ms
+                    let async_us = if k % 5 == 0 { 200 + (after_steps % 65_000) } else { 0 };
+                    Case17 { shape, after_steps, k: k as u64, late, async_us }
+                })
         },
         ctx.n(400, 8000),
         |ws, c, counting| match check(ctx, ws, c, counting) {
